@@ -1,7 +1,12 @@
 #!/usr/bin/env python3
 """dev helper: trymut.py <props,comma> (--patch FILE | --sub FILE 'old' 'new') [--keep]
 applies a change to a scratch copy of /repo/src (under /tmp/mutwt), runs bin/check <prop> --repo, removes it."""
-import sys, os, subprocess, shutil
+import sys, os, subprocess, shutil, hashlib, glob
+def cleanup_build(d):
+    h = hashlib.sha1(os.path.abspath(d).encode()).hexdigest()[:8]
+    for p in glob.glob('/verif/build/*_' + h):
+        shutil.rmtree(p, ignore_errors=True)
+
 props = sys.argv[1].split(',')
 d = '/tmp/mutwt'
 shutil.rmtree(d, ignore_errors=True)
@@ -30,3 +35,4 @@ for p in props:
     print('\n'.join('   ' + l for l in r.stdout.strip().split('\n')[:12]))
 if '--keep' not in sys.argv:
     shutil.rmtree(d, ignore_errors=True)
+    cleanup_build(d)
